@@ -66,7 +66,7 @@ def c08(prop, tier, res, replay=None):
 
 
 def c09(prop, tier, res, replay=None):
-    return pure.check_cases(prop, tier, res, [AUTH], AUTH_ASSUME, replay)
+    return pure.check_cases(prop, tier, res, [AUTH, CONCX], AUTH_ASSUME + CONCX_ASSUME, replay)
 
 
 def c17(prop, tier, res, replay=None):
@@ -139,7 +139,7 @@ PUBLISH = dict(sub="publish", mode="publish", family="publish", shards=q(4, 16),
 
 
 def c15(prop, tier, res, replay=None):
-    return pure.check_cases(prop, tier, res, [PUBLISH, OPFRONT, RELOAD_SWEEPS], SWEEP_ASSUME + [
+    return pure.check_cases(prop, tier, res, [PUBLISH, OPFRONT, RELOAD_SWEEPS, CONCX], SWEEP_ASSUME + CONCX_ASSUME + [
         "publishes are also entered through the other front ends (MCP tools on a SQLite file and in admin-proxy mode over TCP, Admin API on memory and SQLite, global and endpoint-scoped paths) and judged item by item against what was published (driver mode opfront)",
         "modelled: the global direct path POST /messages/publish (three validation passes + one EnqueueBatch against the queue model, with the implementation's eviction choice) and the endpoint-scoped path (Model/PublishScoped: scoped switch, endpoint resolution, audit with actor policy, route policy, parse loop, selector hints, target, envelope, stored ids, one EnqueueBatch); both are compared step by step and judged by spec-level predicates that do not depend on the handler's check order",
         "not modelled (answer before the modelled path): global_publish_disabled, audit header policy, JSON decoding errors and body-size limit, management-model cross checks (SourceMismatch, fail-closed resolver), a LookupMessages error, the non-batch fallback loop for stores without EnqueueBatch (every shipped store has it)",
@@ -160,6 +160,12 @@ def c19(prop, tier, res, replay=None):
         "NOT PROVED, differential only: that the formatter's per-directive tables (format.go, 1 kLoC) print every field the parser's tables (parser.go, 3.6 kLoC) can set in a form that parses back to the same value. This is decided by running Parse/Format/Parse/Compile on texts and comparing complete compiled configurations and validation results (canonical dump of every field; error/warning lists compared as sets because their order follows Go map iteration) plus idempotence of the second fmt",
         "inputs of the differential: every string literal in the repository's Go files (tests included) and every fenced block in its docs that the parser accepts, read from /repo at run time (currently ~420 texts covering every documented directive), and token-level mutations of them (re-quoting, special values incl. blank/escapes/placeholders/braces, comments, duplicated tokens, spliced blocks); a directive that appears in no test and no doc is not exercised",
         "positions in lexer error messages are not modelled; input is valid UTF-8 (the lexer rejects invalid UTF-8 at token starts)"], replay)
+
+
+CONCX = dict(sub="concx", mode="concx", family="concx", shards=q(4, 16),
+             args=lambda tier, sd, sh: ["-seed", sd * 1000 + sh, "-rounds", 40 if tier == "quick" else 400],
+             key_fields=["k", "scenario", "backend", "goroutines"])
+CONCX_ASSUME = ["concurrency: the theorems are about sequential histories (every handler decision is one critical section); hkharness concx fires 4-32 goroutines at the same instant through the real handlers in scenarios whose totals are schedule-independent (one nonce, a full queue, one bucket, one contested id) - it samples schedules and can only fail on one that breaks the bound"]
 
 
 OPFRONT = dict(sub="opfront", mode="opfront", family="opfront", shards=q(4, 16),
